@@ -16,6 +16,7 @@ func init() { register("C01", checkC01) }
 func checkC01(c *chk.Ctx) {
 	h := newH(c)
 	c.Decided = []string{
+		"R01n a new leader's ack tracker does not start below the commit offset of its database (open finding F31: a snapshot-only node elected leader acknowledges writes without a follower)",
 		"R01a client ack only inside the quorum-commit continuation of the very offset that was appended",
 		"R01b LEADER status only after the whole election-time log is quorum-committed and replayed",
 		"R01c quorum arithmetic of the ack tracker and of the fencing majority (RF, n = 1..9)",
@@ -44,6 +45,7 @@ func checkC01(c *chk.Ctx) {
 	ruleSyncCompletionsCovered(h, "R01k")
 	ruleR05hInto(h, "R01l")
 	ruleCommittedContinuationsSucceed(h, "R01m")
+	ruleTrackerHeadCoversCommit(h, "R01n")
 }
 
 // writeWorker finds the leader's write worker: the unique repository function that
